@@ -2273,7 +2273,9 @@ class unyt_array(np.ndarray):
         """
         np_ret = super().__reduce__()
         obj_state = np_ret[2]
-        unit_state = (((str(self.units), self.units.registry.lut),) + obj_state[:],)
+        registry = self.units.registry
+        unit_system = getattr(registry.unit_system, "name", None)
+        unit_state = (((str(self.units), registry.lut, unit_system),) + obj_state[:],)
         new_ret = np_ret[:2] + unit_state + np_ret[3:]
         return new_ret
 
@@ -2284,9 +2286,16 @@ class unyt_array(np.ndarray):
         metadata extracted in __reduce__ and then serialized by pickle.
         """
         super().__setstate__(state[1:])
-        unit, lut = state[0]
+        # pickles written by older versions carry (unit, lut) only
+        unit, lut, *extra = state[0]
         lut = _correct_old_unit_registry(lut)
-        registry = UnitRegistry(lut=lut, add_default_symbols=False)
+        try:
+            registry = UnitRegistry(
+                lut=lut, add_default_symbols=False, unit_system=extra[0]
+            )
+        except (IndexError, KeyError):
+            # no unit system recorded, or one this process does not know
+            registry = UnitRegistry(lut=lut, add_default_symbols=False)
         self.units = Unit(unit, registry=registry)
 
     def __deepcopy__(self, memodict=None):
